@@ -23,6 +23,9 @@ COMPS = (ast.ListComp, ast.SetComp, ast.DictComp, ast.GeneratorExp)
 SCOPES = FUNCS + (ast.ClassDef, ast.Lambda) + COMPS
 
 SCOPE_PROGS = [
+    'def f(z):\n    return list((lambda: (y := 1)) for x in z)\n',
+    'def f(z):\n    a = [(lambda q=(d := 1): (b := q)) for x in z]\n    return [lambda: [(v := x) for x in z] for _ in z], {k: (lambda: (m := k)) for k in z}\n',
+    'def cleanup(registry):\n    use(handle, stale)\n    del stale\n    del only_deleted\n    return sum(v for v in {k: w for k, w in registry})\n',
     'def f(a, b=D1, *, c: A1 = D2) -> R1:\n    x = a + g\n    def inner(q=x): return q + a\n    return inner\n',
     '@deco(arg)\nclass K(Base, metaclass=M):\n    attr = 1\n    def m(self, v=attr): return attr, v\n',
     'r = [w := i for i in outer_it if (z := i) > lim for j in i]\n',
@@ -174,10 +177,15 @@ def names_by_rule(f):
             for c in outer:
                 visit(c, in_comp_chain)
             if isinstance(n, COMPS):
-                for w in ast.walk(n):       # hoisted walrus targets (not through nested function-like scopes: approximated by direct walk)
-                    if isinstance(w, ast.NamedExpr) and isinstance(w.target, ast.Name):
-                        names.add(w.target.id)
-                        wal.add(w.target.id)
+                def hoisted(m):          # walrus targets of the comprehension, through nested comprehensions but not into the body of a lambda (its own function scope)
+                    if isinstance(m, ast.NamedExpr) and isinstance(m.target, ast.Name):
+                        names.add(m.target.id)
+                        wal.add(m.target.id)
+                    for c in ast.iter_child_nodes(m):
+                        if isinstance(m, ast.Lambda) and c is m.body:
+                            continue
+                        hoisted(c)
+                hoisted(n)
             return
         for c in ast.iter_child_nodes(n):
             visit(c, in_comp_chain)
